@@ -23,6 +23,7 @@ struct rt_area {
     int custom;                       /* callback-backed */
     int has_write;                    /* custom areas may lack the write callback */
     int window;                       /* a reserved address window: no callbacks and no memory at all (register-less) */
+    int noread;                       /* a callback-backed area without read callback (a device that can only be written) */
 };
 
 struct rt_reg {
@@ -373,7 +374,7 @@ rt_build(struct rt_inst *in, const struct rt_desc *d)
                                | (a->skipdef ? REG_AF_SKIP_DEFAULTS : 0));
         if (via_macros) {
             if (a->custom) {
-                const RegisterArea t = MAKE_CUSTOM_AREA(a->window ? NULL : rt_cb_read, a->has_write ? rt_cb_write : NULL, a->base, a->size, ra->flags);
+                const RegisterArea t = MAKE_CUSTOM_AREA(a->window || a->noread ? NULL : rt_cb_read, a->has_write ? rt_cb_write : NULL, a->base, a->size, ra->flags);
                 *ra = t;
             } else {
                 /* the macro carries its own storage of constant size; the harness' poisoned block replaces it */
@@ -383,7 +384,7 @@ rt_build(struct rt_inst *in, const struct rt_desc *d)
                 ra->mem = in->store[i];
             }
         } else if (a->custom) {
-            ra->read = a->window ? NULL : rt_cb_read;
+            ra->read = a->window || a->noread ? NULL : rt_cb_read;
             ra->write = a->has_write ? rt_cb_write : NULL;
             ra->mem = NULL;
             /* every second callback-backed area written field by field carries a memory pointer of its own as well
@@ -801,7 +802,7 @@ rt_describe(const struct rt_desc *d)
     for (int i = 0; i < d->nareas && o < 600; i++)
         o += (size_t)snprintf(b + o, sizeof b - o, " [%u+%u %s%s%s%s]", d->area[i].base, d->area[i].size,
                               d->area[i].readable ? "r" : "-", d->area[i].writeable ? "w" : "-",
-                              d->area[i].skipdef ? "S" : "", d->area[i].window ? " window" : d->area[i].custom ? (d->area[i].has_write ? " cb" : " cb-nowrite") : "");
+                              d->area[i].skipdef ? "S" : "", d->area[i].window ? " window" : d->area[i].noread ? " cb-noread" : d->area[i].custom ? (d->area[i].has_write ? " cb" : " cb-nowrite") : "");
     o += (size_t)snprintf(b + o, sizeof b - o, " regs:");
     for (int i = 0; i < d->nregs && o < 640; i++)
         o += (size_t)snprintf(b + o, sizeof b - o, " %s@%u/%s", rt_tname[d->reg[i].type], d->reg[i].addr,
